@@ -389,6 +389,26 @@ pub fn c19_instances(tier: Tier) -> Vec<Instance> {
             i.pending_budget = 1;
             out.push(i);
         }
+        // the caller gives up on a read (select! against a timer) and WRITES before reading again:
+        // the packet must not be interleaved with a half sent keep-alive reply
+        let user = Packet::Tiny(Tiny { reqi: RequestId(9), subt: TinyType::Ping });
+        for seq in sequences(&alpha, 2) {
+            if !seq.iter().any(|x| x.0 == "ka") { continue; }
+            let label: Vec<&str> = seq.iter().map(|x| x.0).collect();
+            let frames: Vec<Vec<u8>> = seq.iter().map(|x| x.1.clone()).collect();
+            for write_at in 1..=2usize {
+                let mut ops: Vec<Option<Packet>> = vec![None; 5];
+                ops.insert(write_at, Some(user.clone()));
+                let mut i = Instance::new(&format!("cancel-then-write#{cname}#{}-write@{write_at}#tokio", label.join("+")), Impl::Tokio, c, frames.clone());
+                i.program = Program::Ops(ops);
+                i.chunks = Chunks::Boundary;
+                i.script_writes = true;
+                i.allow_eof = true;
+                i.cancel_budget = 2;
+                i.pending_budget = 1;
+                out.push(i);
+            }
+        }
     }
     out
 }
